@@ -20,7 +20,10 @@ LEVEL_NOTE = 'Trusted: the regex/decimal reader in pvmon/ref/masses.py, CPython 
 SHARDS = {'quick': 4, 'thorough': 8}
 ASSUMPTIONS = ['the embedded table strings are the specification (their literature values are not checked)',
                'independent reader pvmon/ref/masses.py (regular expressions + decimal)',
-               'periodictable.constants (avogadro_number, neutron mass) are data']
+               'periodictable.constants (avogadro_number, neutron mass, electron mass) are data',
+               'a charged atom has the tabulated neutral mass less q electrons and the density of the neutral atom '
+               '(round 8: element ions and ions of the lightest / heaviest isotope, the charge asked as numpy uint8 / int8 '
+               '/ int16 / int64 and int)']
 
 _state = {}
 
